@@ -418,17 +418,10 @@ func c20HostileNames(rng *Rng, n int) []string {
 func c20GenTar(rng *Rng, tier string, w *bufio.Writer, stats *Stats, header func(desc, dump string)) {
 	thorough := tier == "thorough"
 	dumpLine := "dump codec=gzip graphs=1 nodes=2 edges=1 shard=2 batch=2 gseed=7"
-	emit := func(desc string, ops []string) {
-		for len(ops) > 0 {
-			n := len(ops)
-			if n > 60 {
-				n = 60
-			}
+	emit := func(desc string, ops []string) { // one op per case (see the dump cache in c20Runner.Step)
+		for _, o := range ops {
 			header(desc, dumpLine)
-			for _, o := range ops[:n] {
-				fmt.Fprintln(w, o)
-			}
-			ops = ops[n:]
+			fmt.Fprintln(w, o)
 		}
 	}
 	names := c20HostileNames(rng, map[bool]int{false: 140, true: 600}[thorough])
